@@ -218,9 +218,9 @@ func (x *Exec) callByContract(fr *Frame, st *State, ci ssa.CallInstruction, fc *
 		} else if fn != nil && sig.Results().At(i).Name() != "" {
 			name = sig.Results().At(i).Name()
 		}
-		env.names[name] = specVal{res[i], rt}
+		env.names[name] = specVal{term: res[i], typ: rt}
 		if len(rts) == 1 {
-			env.names["result"] = specVal{res[i], rt}
+			env.names["result"] = specVal{term: res[i], typ: rt}
 		}
 	}
 	if fc.Fresh && len(res) > 0 && x.vc.sortOf(rts[0]) == "Ptr" {
@@ -314,12 +314,12 @@ func (x *Exec) calleeEnv(fr *Frame, st *State, fc *FuncContract, fn *ssa.Functio
 	}
 	for i := range args {
 		if i < len(names) && names[i] != "" && names[i] != "_" {
-			env.names[names[i]] = specVal{args[i], argTypes[i]}
+			env.names[names[i]] = specVal{term: args[i], typ: argTypes[i]}
 		}
-		env.names[fmt.Sprintf("arg%d", i)] = specVal{args[i], argTypes[i]}
+		env.names[fmt.Sprintf("arg%d", i)] = specVal{term: args[i], typ: argTypes[i]}
 	}
 	if len(args) > 0 {
-		env.names["recv"] = specVal{args[0], argTypes[0]}
+		env.names["recv"] = specVal{term: args[0], typ: argTypes[0]}
 	}
 	return env
 }
@@ -416,6 +416,9 @@ func (x *Exec) builtin(fr *Frame, st *State, ci ssa.CallInstruction, name string
 	case "ssa:wrapnilchk":
 		return []string{args[0]}
 	case "ssa:deferstack":
+		if v, ok := ci.(ssa.Value); ok {
+			return []string{x.vc.zero(v.Type())}
+		}
 		return []string{"any_zero"}
 	case "clear":
 		return x.havocCall(fr, st, ci, "builtin.clear", c.Signature())
@@ -584,15 +587,15 @@ func (x *Exec) checkCallsites(fr *Frame, st *State, ci ssa.CallInstruction, key 
 		off := 0
 		if len(names)+1 == len(args) {
 			off = 1
-			env.names["recv"] = specVal{args[0], argTypes[0]}
+			env.names["recv"] = specVal{term: args[0], typ: argTypes[0]}
 		}
 		for i, n := range names {
 			if i+off < len(args) && n != "_" {
-				env.names[n] = specVal{args[i+off], argTypes[i+off]}
+				env.names[n] = specVal{term: args[i+off], typ: argTypes[i+off]}
 			}
 		}
 		if len(args) > 0 {
-			env.names["recv"] = specVal{args[0], argTypes[0]}
+			env.names["recv"] = specVal{term: args[0], typ: argTypes[0]}
 		}
 		env.callerFrame = fr
 		if cc.Where != nil {
